@@ -373,6 +373,199 @@ func c12exec(c *h.Ctx, cs *h.Case) {
 					gen = "nary"
 				}
 				check(ro, t, c12want{gen, nsrv, bf, nodes, 0, tk[1] == "lt.tree"}, "")
+			case len(tk) == 5 && tk[1] == "naryk":
+				// the roster by its servers' keys (repeats allowed), the root by key or nil
+				N, ok1 := atoi(tk[2])
+				var keys []int
+				ok2 := true
+				if tk[4] != "-" {
+					for _, f := range strings.Split(tk[4], ",") {
+						v, ok := atoi(f)
+						ok2 = ok2 && ok
+						keys = append(keys, v)
+					}
+				}
+				rootKey, ok3 := -1, tk[3] == "nil"
+				if !ok3 {
+					rootKey, ok3 = atoi(tk[3])
+				}
+				if !ok1 || !ok2 || !ok3 {
+					return
+				}
+				ro := &onet.Roster{}
+				distinctKeys := true
+				first := -1
+				if len(keys) > 0 {
+					var sis []*network.ServerIdentity
+					seen := map[int]bool{}
+					for i, k := range keys {
+						sis = append(sis, c12si(k, k))
+						if seen[k] {
+							distinctKeys = false
+						}
+						seen[k] = true
+						if k == rootKey && first < 0 {
+							first = i
+						}
+					}
+					ro = onet.NewRoster(sis)
+				}
+				var root *network.ServerIdentity
+				if tk[3] != "nil" {
+					// a separate value with the same key as the roster's entry (if there is one)
+					orig := c12si(rootKey, rootKey)
+					root = network.NewServerIdentity(orig.Public, orig.Address)
+				} else {
+					first = 0
+				}
+				t := ro.GenerateNaryTreeWithRoot(N, root)
+				if t == nil {
+					obs = "none"
+					if first >= 0 && cs.Class != "boundary" {
+						cs.Fail("nary-nil", "no tree although the root asked for is roster member "+strconv.Itoa(first)+" — "+op)
+					}
+					return
+				}
+				obs = c12dump(t)
+				if first < 0 {
+					cs.Fail("nary-unexpected-tree", "a tree was generated for a root that is not in the roster — "+op)
+					return
+				}
+				if distinctKeys {
+					check(ro, t, c12want{"nary", len(keys), N, len(keys), first, true}, "")
+				} else if t.Root.RosterIndex != first && cs.Class != "boundary" {
+					cs.Fail("nary-root", fmt.Sprintf("root is roster member %d, expected the first match %d — %s", t.Root.RosterIndex, first, op))
+				}
+			case len(tk) == 4 && tk[1] == "bigempty":
+				N, ok1 := atoi(tk[2])
+				nodes, ok2 := atoi(tk[3])
+				if !ok1 || !ok2 {
+					return
+				}
+				t := (&onet.Roster{}).GenerateBigNaryTree(N, nodes) // documented: panics
+				if t == nil {
+					obs = "none"
+				} else {
+					obs = c12dump(t)
+				}
+			case len(tk) == 4 && tk[1] == "simnil":
+				hosts, ok1 := atoi(tk[2])
+				bf, ok2 := atoi(tk[3])
+				if !ok1 || !ok2 {
+					return
+				}
+				sim := &onet.SimulationBFTree{BF: bf, Hosts: hosts, Suite: "Ed25519"}
+				sc := &onet.SimulationConfig{}
+				if err := sim.CreateTree(sc); err != nil {
+					obs = "err"
+				} else {
+					obs = "ok"
+				}
+				if obs != "err" || sc.Tree != nil {
+					cs.Fail("sim-tree-without-roster", "CreateTree without a roster did not fail — "+op)
+				}
+			case (len(tk) == 6 && tk[1] == "sim") || (len(tk) == 4 && tk[1] == "simlocal"):
+				// what simulations do: CreateRoster over the given host names, then CreateTree
+				hosts, ok1 := atoi(tk[2])
+				bf, ok2 := atoi(tk[3])
+				na, ok3, tls := 1, true, false
+				local := tk[1] == "simlocal"
+				if !local {
+					na, ok3 = atoi(tk[4])
+					if tk[5] != "0" && tk[5] != "1" {
+						return
+					}
+					tls = tk[5] == "1"
+				}
+				if !ok1 || !ok2 || !ok3 || hosts == 0 || na == 0 || hosts > 4096 || (local && hosts > 16) {
+					return
+				}
+				if bf == 0 && hosts > 1 {
+					obs = "hang" // see `big`: the level loop never ends for N = 0; not run
+					return
+				}
+				addrs := make([]string, na)
+				for i := range addrs {
+					addrs[i] = fmt.Sprintf("10.77.%d.%d", i/250, i%250+1)
+				}
+				if local {
+					addrs[0] = "127.0.0.1"
+				}
+				const basePort = 2000
+				sim := &onet.SimulationBFTree{BF: bf, Hosts: hosts, Suite: "Ed25519", TLS: tls}
+				sc := &onet.SimulationConfig{}
+				var err error
+				done := make(chan interface{}, 1)
+				go func() {
+					defer func() { done <- recover() }()
+					sim.CreateRoster(sc, addrs, basePort)
+					err = sim.CreateTree(sc)
+				}()
+				select {
+				case r := <-done:
+					if r != nil {
+						panic(r)
+					}
+				case <-time.After(c12bigTimeout(hosts) + 10*time.Second):
+					obs = "hang"
+					hung = true
+					cs.Fail("sim-hang", "CreateRoster/CreateTree did not return — "+op)
+					return
+				}
+				if err != nil || sc.Tree == nil || sc.Roster == nil {
+					obs = "none"
+					cs.Fail("sim-nil", fmt.Sprintf("no roster / tree (%v) — %s", err, op))
+					return
+				}
+				// the roster: Hosts servers, server c on host name c mod na, port base + 2·(c / na),
+				// pairwise distinct keys and addresses, a private key for every address
+				ro := sc.Roster
+				if len(ro.List) != hosts {
+					obs = c12dump(sc.Tree)
+					cs.Fail("sim-roster-size", fmt.Sprintf("%d servers, %d hosts asked for — %s", len(ro.List), hosts, op))
+					return
+				}
+				var hidx, ports []int
+				keys := map[string]bool{}
+				adrs := map[network.Address]bool{}
+				for c, si := range ro.List {
+					hi := -1
+					for i, a := range addrs {
+						if a == si.Address.Host() {
+							hi = i
+						}
+					}
+					pt, _ := strconv.Atoi(si.Address.Port())
+					hidx = append(hidx, hi)
+					ports = append(ports, pt-basePort)
+					if hi != c%na {
+						cs.Fail("sim-host", fmt.Sprintf("server %d is on host name %d (%s), expected %d — %s", c, hi, si.Address, c%na, op))
+					}
+					if !local && pt != basePort+(c/na)*2 {
+						cs.Fail("sim-port", fmt.Sprintf("server %d has port %d, expected %d — %s", c, pt, basePort+(c/na)*2, op))
+					}
+					want := network.PlainTCP
+					if tls {
+						want = network.TLS
+					}
+					if si.Address.ConnType() != want {
+						cs.Fail("sim-conntype", fmt.Sprintf("server %d: connection type %v — %s", c, si.Address.ConnType(), op))
+					}
+					keys[si.Public.String()] = true
+					adrs[si.Address] = true
+					pk := sc.PrivateKeys[si.Address]
+					if pk == nil || pk.Private == nil || !fix.Suite.Point().Mul(pk.Private, nil).Equal(si.Public) {
+						cs.Fail("sim-private-key", fmt.Sprintf("no matching private key stored for server %d — %s", c, op))
+					}
+				}
+				if len(keys) != hosts || len(adrs) != hosts || len(sc.PrivateKeys) != hosts {
+					cs.Fail("sim-distinct", fmt.Sprintf("%d servers: %d distinct keys, %d distinct addresses, %d private keys — %s", hosts, len(keys), len(adrs), len(sc.PrivateKeys), op))
+				}
+				obs = c12dump(sc.Tree) + " hosts=" + h.Ints(hidx)
+				if !local {
+					obs += " ports=" + h.Ints(ports)
+				}
+				check(ro, sc.Tree, c12want{"sim", hosts, bf, hosts, 0, false}, "")
 			case len(tk) == 5 && tk[1] == "big":
 				N, ok1 := atoi(tk[2])
 				nodes, ok2 := atoi(tk[3])
@@ -563,13 +756,74 @@ func c12gen(c *h.Ctx, yield func(*h.Case)) {
 		ops = append(ops, fmt.Sprintf("c12 lt.tree %d", 1+r.Intn(c.Pick(8, 20))))
 		emit("localtest wrappers sampled", ops)
 	}
+	// --- the roster by keys: root lookup by key (present, absent, nil), keys in any order ----------
+	for n := 1; n <= c.Pick(8, 14); n++ {
+		perm := r.Perm(3 * n)
+		keys := perm[:n]
+		absent := perm[n]
+		var ops []string
+		for N := 1; N <= 3; N++ {
+			ops = append(ops, fmt.Sprintf("c12 naryk %d nil %s", N, h.Ints(keys)))
+			for _, k := range keys {
+				ops = append(ops, fmt.Sprintf("c12 naryk %d %d %s", N, k, h.Ints(keys)))
+			}
+			ops = append(ops, fmt.Sprintf("c12 naryk %d %d %s", N, absent, h.Ints(keys)))
+		}
+		emit("nary by key", ops)
+	}
+	for i := 0; i < c.Pick(10, 60); i++ {
+		// outside the domain of the node-id clause: a roster that lists a server several times
+		// (Search finds the first entry); model and code must still agree
+		n := 2 + r.Intn(10)
+		keys := make([]int, n)
+		for j := range keys {
+			keys[j] = r.Intn(1 + n/2)
+		}
+		ops := []string{fmt.Sprintf("c12 naryk %d nil %s", 1+r.Intn(4), h.Ints(keys))}
+		for j := 0; j < 3; j++ {
+			ops = append(ops, fmt.Sprintf("c12 naryk %d %d %s", 1+r.Intn(4), r.Intn(2+n/2), h.Ints(keys)))
+		}
+		emit("nary by key, repeated servers", ops)
+	}
+	// --- simulations: CreateRoster over 1..k host names, then CreateTree (nodes = servers) --------
+	for hosts := 1; hosts <= c.Pick(12, 24); hosts++ {
+		var ops []string
+		for bf := 1; bf <= c.Pick(3, 5); bf++ {
+			for _, na := range []int{1, 2, 3, hosts - 1, hosts, hosts + 2} {
+				if na >= 1 && (na <= 3 || na >= hosts-1) {
+					ops = append(ops, fmt.Sprintf("c12 sim %d %d %d %d", hosts, bf, na, (hosts+bf+na)%2))
+				}
+			}
+		}
+		emit(fmt.Sprintf("simulation exhaustive hosts=%d", hosts), ops)
+	}
+	for i := 0; i < c.Pick(8, 60); i++ {
+		var ops []string
+		for j := 0; j < 3; j++ {
+			hosts := 1 + r.Intn(c.Pick(60, 300))
+			ops = append(ops, fmt.Sprintf("c12 sim %d %d %d %d", hosts, 1+r.Intn(6), 1+r.Intn(hosts+2), r.Intn(2)))
+		}
+		emit("simulation sampled", ops)
+	}
+	{
+		var ops []string
+		for hosts := 1; hosts <= c.Pick(4, 8); hosts++ {
+			ops = append(ops, fmt.Sprintf("c12 simlocal %d %d", hosts, 1+hosts%3))
+		}
+		ops = append(ops, "c12 simnil 3 2", "c12 simnil 1 1")
+		emit("simulation localhost", ops)
+	}
 	// --- boundary: N = 0 (outside the property's domain; model and code must still agree) and
 	// malformed lines ------------------------------------------------------------------------------
 	emit("boundary", []string{"c12 nary 1 0 0", "c12 nary 2 0 0", "c12 nary 5 0 3", "c12 big 0 1 0,1", "c12 big 0 3 0,1",
-		"c12 big 2 0 0,1,2", "c12 star 1", "c12 star 2", "c12 binary 1"})
+		"c12 big 2 0 0,1,2", "c12 star 1", "c12 star 2", "c12 binary 1",
+		"c12 bigempty 2 3", "c12 bigempty 1 1", "c12 naryk 2 nil -", "c12 naryk 2 5 -", "c12 naryk 0 nil 4,2,9", "c12 naryk 0 2 4,2,9",
+		"c12 sim 1 0 1 0", "c12 sim 3 0 2 1"})
 	emit("malformed", []string{"c12 nary 0 2 0", "c12 nary 3 2 3", "c12 nary 3 2", "c12 nary a 2 0", "c12 big 2 5", "c12 big 2 5 -",
 		"c12 big 2 x 0,1", "c12 binary 0", "c12 star", "c12 tree 3",
-		"c12 lt.tree 0", "c12 lt.bigtree 3 0 2", "c12 lt.bigtree 3 2", "c12 lt.tree x"})
+		"c12 lt.tree 0", "c12 lt.bigtree 3 0 2", "c12 lt.bigtree 3 2", "c12 lt.tree x",
+		"c12 naryk 2 nil", "c12 naryk x nil 1,2", "c12 naryk 2 y 1,2", "c12 naryk 2 1 1,,2", "c12 bigempty 2", "c12 bigempty a 1",
+		"c12 sim 0 2 1 0", "c12 sim 3 2 0 0", "c12 sim 3 2 1 2", "c12 sim 3 2 1", "c12 simlocal 0 2", "c12 simlocal 2", "c12 simnil 3", "c12 simnil a 2"})
 }
 
 func init() {
